@@ -17,8 +17,8 @@ distribution = poolcases.distribution
 
 def gen(rng, tier):
     n = {"quick": 120, "thorough": 1500, "search": 600}[tier]
-    return [poolcases.gen_keepalive_stop(rng) if i % 5 == 4 else poolcases.gen_case(rng, npools=1 if i % 3 else 2)
-            for i in range(n)]
+    return [poolcases.gen_keepalive_stop(rng) if i % 6 == 4 else poolcases.gen_keepalive_run(rng) if i % 6 == 5
+            else poolcases.gen_case(rng, npools=1 if i % 3 else 2) for i in range(n)]
 
 
 def extra(tier, rng, build_cache, known):
@@ -57,5 +57,5 @@ def extra(tier, rng, build_cache, known):
 
 PINNED = ['C12_single_pool', 'C12_shape', 'C12_state_monotone']
 LEVEL_TEXT = "Same pool model and oracle; clauses: no submission is accepted once stop was called, stop reports success only when every task accepted by the pool has run or was cancelled, a pass is refused only once stopped, the observed state only moves Running -> Stopping -> Stopped consistently with the stops made. Theorem over ALL well-formed single-pool histories (no further premise): the oracle accepts the model's run; for any number of pools and any operation the state never moves backwards. Tied to /repo by histories on real pools compared in Coq (stops with zero and non-zero timeouts, retried stops, waits across stops) and by a real-thread scenario: a waiter blocked on a result that is not coming, the first stop timing out with a task parked, the second succeeding, the waiter told so promptly."
-LEVEL_NOTE = "Trusted: Coq kernel + vm_compute; hand transcription of co_pool/mod.rs, task.rs and the parts of scheduler.rs it uses (Sched/Pool.v over Sched/Sched.v, Coroutine/Co.v, Queue/OWS.v), validated on the sampled histories only; one scheduling thread at a time (the pool's scheduling half is !Sync), virtual clock (hooks H1/H2), DashMap/DashSet as association lists, process-global task/coroutine queues and cancel sets modelled as shared state of all pools. The single-pool theorems assume wf_pool1: ONE pool with min_size 0, keep_alive_time 0, max_size >= 1, operations naming submitted tasks, task bodies that keep the coroutine API contract (no self-cancel, syscall states well bracketed), clock steps not below the model clock; the evidence counts how many generated histories satisfy it (tag wf_pool1). Histories with two pools, or with keep-alive/min-size (keepalive_stop family), are covered by the correspondence and the oracle only. No axioms (every theorem closed under the global context)."
+LEVEL_NOTE = "Trusted: Coq kernel + vm_compute; hand transcription of co_pool/mod.rs, task.rs and the parts of scheduler.rs it uses (Sched/Pool.v over Sched/Sched.v, Coroutine/Co.v, Queue/OWS.v), validated on the sampled histories only; one scheduling thread at a time (the pool's scheduling half is !Sync), virtual clock (hooks H1/H2), DashMap/DashSet as association lists, process-global task/coroutine queues and cancel sets modelled as shared state of all pools. The single-pool theorems assume wf_pool1: ONE pool with min_size 0, ANY keep_alive_time, max_size >= 1, a clock that does not reach u64::MAX while a keep-alive is pending (for C01/C11), operations naming submitted tasks, task bodies that keep the coroutine API contract (no self-cancel, syscall states well bracketed), clock steps not below the model clock; the evidence counts how many generated histories satisfy it (tag wf_pool1). Histories with two pools, or with a minimum size, are covered by the correspondence and the oracle only. No axioms (every theorem closed under the global context)."
 TECHNIQUE = 'Coq proof (simulation invariant over all histories of a Gallina pool model; finite-state closure lifted to all schedules for the wait/notify and signal protocols) + differential correspondence inside Coq + forced real-thread schedules through cfg-guarded pause points'
